@@ -166,7 +166,7 @@ def assemble(unit_path, variant=None):
             A.emit(text, "extract", qual, lmap, p["relpath"])
             end = len(A.lines)
             A.rewrites += log
-            mode = "M4" if ann.get("seg_from") else "M3" if ann.get("slice_k") is not None else ("M2" if (ann.get("replaces") or ann.get("maploops") or ann.get("forloops") or ann.get("anyloops") or ann.get("findloops") or ann.get("posloops") or ann.get("findmuts") or ann.get("findmutlets")) else "M1")
+            mode = "M4" if ann.get("seg_from") else "M3" if (ann.get("slice_k") is not None or ann.get("slice_before")) else ("M2" if (ann.get("replaces") or ann.get("maploops") or ann.get("forloops") or ann.get("anyloops") or ann.get("findloops") or ann.get("posloops") or ann.get("findmuts") or ann.get("findmutlets")) else "M1")
             if ann.get("imported_from"):
                 mode = "ASSUMED"
                 A.trusted.append(f"contract of {p['relpath']}::{qual} imported verbatim from unit {ann['imported_from']} where it is PROVED")
@@ -309,6 +309,7 @@ def assemble(unit_path, variant=None):
                 if "ret" in kv: ann["ret"] = kv["ret"]
                 if "rename" in kv: ann["rename"] = kv["rename"]
                 if "slice" in kv: ann["slice_k"] = int(kv["slice"])
+                if "slice_before" in kv: ann["slice_before"] = kv["slice_before"]
                 if "seg" in kv:
                     ann["seg_name"] = kv["seg"]; ann["seg_from"] = kv.get("from_stmt") or kv.get("from_after")
                     if "from_after" in kv: ann["seg_from_after"] = kv["from_after"]
